@@ -293,6 +293,7 @@ ROT90 = [[0, -1], [1, 0]]
 SL2 = [[2, 1], [1, 1]]
 PERM = [[1, 0, 0], [0, 0, 1], [0, -1, 0]]
 COX = [[1, 3, 2], [3, 1, 7], [2, 7, 1]]
+COX_INF = [[1, -1, 3], [-1, 1, 3], [3, 3, 1]]      # an infinite-order label (<= 0)
 
 
 def _scalar_pack(p):
@@ -320,7 +321,7 @@ ENTRIES = {
     "sl2_iso": (_matrix_pack, lambda p, v: build(p, SL2, (2, 2)), lambda o: H.sl2_iso(o).proj_data),
     "from_angle": (lambda p: p["k"] != "other", lambda p, v: build(p, v), lambda o: H.IdealPoint.from_angle(o).proj_data),
     "regular_polygon": (_scalar_pack, lambda p, v: build(p, v), lambda o: H.Polygon.regular_polygon(5, radius=o).proj_data),
-    "coxeter_rep": (_matrix_pack, lambda p, v: build(p, COX, (3, 3)),
+    "coxeter_rep": (_matrix_pack, lambda p, v: build(p, COX_INF if (v is not None and int(abs(v)) % 2 == 0) else COX, (3, 3)),
                     lambda o: np.stack([coxeter.CoxeterGroup(matrix=o).geometric_representation()[g] for g in "abc"])),
     "array_like": (lambda p: True, lambda p, v: build(p, v), lambda o: utils.array_like(o)),
     "zeros_float": (lambda p: True, lambda p, v: build(p, v), lambda o: utils.zeros((2,), like=o, integer_type=False)),
@@ -398,8 +399,14 @@ def _post(entry, out, obj):
         d = np.asarray(H.Point(out).distance(H.Point.get_origin(2)), dtype=float)
         return {"form": close(d, np.full(d.shape, float(np.asarray(obj).reshape(-1)[0])), 1e-5)}
     if entry == "coxeter_rep":
+        labels_before = np.array(np.asarray(obj, dtype=float))
         G = coxeter.CoxeterGroup(matrix=obj)
         sq = [close(np.asarray(m, float) @ np.asarray(m, float), np.eye(3), 1e-6) for m in out]
+        # queries that read the labels again after bilinear_form has run
+        cm = np.asarray(G.cartan_matrix({(0, 1): -2.5}), float)
+        tv = np.asarray(G.tits_vinberg_rep({(0, 1): -2.5})["a"], float)
+        again = np.stack([np.asarray(G.geometric_representation()[g], float) for g in "abc"])
+        kept = close(np.asarray(G.coxeter_matrix, float), labels_before, 1e-12) and close(np.asarray(np.asarray(obj, dtype=float)), labels_before, 1e-12)
         hr = G.hyperbolic_rep()
         J = np.diag([-1.0, 1.0, 1.0])
         # HyperbolicRepresentation stores column matrices; form preserved either way for reflections
@@ -407,7 +414,8 @@ def _post(entry, out, obj):
         form = all(close(m @ np.diag([-1.0, 1.0, 1.0]) @ m.T, J, 1e-6) for m in hm)
         can = G.canonical_representation()
         return {"inv_ok": all(sq), "form": form, "eig": finite(np.linalg.eigvals(np.asarray(can["a"] @ can["b"]))),
-                "inv2": finite(utils.invert(out[0]))}
+                "inv2": finite(utils.invert(out[0])), "labels_kept": kept, "repeatable": close(again, np.asarray(out, float), 1e-12),
+                "cartan": cm.tolist(), "tits_vinberg": tv.tolist()}
     if entry in ("point_hyperboloid", "point_affine_hyperboloid", "point_ctor", "point_affine"):
         model = "klein" if "affine" in entry else "projective"
         pt = H.Point(obj, model=model)
@@ -442,8 +450,10 @@ def gen_packaging(rng, n):
 def _value_for(entry, p, v):
     """the parameter value, scaled by v where the entry takes a free real parameter"""
     acc, mk, call = ENTRIES[entry]
-    if entry in ("elliptic", "transformation_inv", "transformation_ctor", "coxeter_rep"):
-        return mk(p, 1)                     # orthogonal / Coxeter matrices: fixed integer-valued data
+    if entry == "coxeter_rep":
+        return mk(p, v if float(v).is_integer() else 1)     # two integer-valued Coxeter matrices, one with an infinite label
+    if entry in ("elliptic", "transformation_inv", "transformation_ctor"):
+        return mk(p, 1)                     # orthogonal matrices: fixed integer-valued data
     if entry == "sl2_iso":
         return build(p, [[v, 1], [v * 2 - 1, 2]] if float(v).is_integer() else [[v, 0], [0, 1 / v]], (2, 2))
     if entry in ("point_hyperboloid", "point_ctor"):
@@ -634,9 +644,12 @@ def gen_rescale(rng, n):
             while N1 == N2:
                 N2 = [F(1)] + Q.rsphere(rng, dim)
         al, be, ga, de = [F(rng.randint(1, 9), rng.randint(1, 4)) for _ in range(4)]
+        ideal_end = rng.random() < 0.25
         # al = ga or be = de makes s1 - s2 lightlike: the code divides by a = <s1-s2, s1-s2> = 0 (finding, see meta note)
         while al * de == be * ga or al == ga or be == de:
             al, be, ga, de = [F(rng.randint(1, 9), rng.randint(1, 4)) for _ in range(4)]
+        if ideal_end:
+            ga = F(0)            # the second endpoint is the ideal point N2 itself
         s1 = [al * a + be * b for a, b in zip(N1, N2)]
         s2 = [ga * a + de * b for a, b in zip(N1, N2)]
         u = F(rng.randint(1, 6), rng.randint(1, 4))
@@ -774,6 +787,15 @@ def fball_h(rng, k, dim, rmax=0.9):
     return pts
 
 
+def _with_ideal_vertex(rng, pts):
+    if rng.random() < 0.3:
+        j = rng.randrange(len(pts))
+        v = pts[j][1:]
+        n = math.sqrt(sum(t * t for t in v)) or 1.0
+        pts[j] = [1.0] + [t / n for t in v]
+    return pts
+
+
 def flam(rng, k):
     return [rng.choice([-1.0, 1.0]) * math.exp(rng.uniform(math.log(0.1), math.log(10))) for _ in range(k)]
 
@@ -784,8 +806,12 @@ def gen_rescale_oracle(rng, n):
         k = rng.choice([1, 2, 3, 4])
         nv = rng.choice([3, 4, 5, 6])
         ang = rng.uniform(-3, 3)
-        yield {"dim": dim, "k": k, "X": fball_h(rng, k, dim), "Y": fball_h(rng, k, dim), "Z": fball_h(rng, k, dim),
-               "poly": [fball_h(rng, nv, dim) for _ in range(k)],
+        Y = fball_h(rng, k, dim)
+        y_ideal = rng.random() < 0.3
+        if y_ideal:      # ideal points (eigenvectors of loxodromic isometries are handed out like this, with any sign)
+            Y = [[1.0] + [c / math.sqrt(sum(t * t for t in y[1:])) for c in y[1:]] for y in Y]
+        yield {"dim": dim, "k": k, "X": fball_h(rng, k, dim), "Y": Y, "y_ideal": y_ideal, "Z": fball_h(rng, k, dim),
+               "poly": [_with_ideal_vertex(rng, fball_h(rng, nv, dim)) for _ in range(k)],
                "lx": flam(rng, k), "ly": flam(rng, k), "lz": flam(rng, k), "lp": [flam(rng, nv) for _ in range(k)],
                "d": rng.uniform(0.05, 2.0), "angle": ang, "boost": rng.uniform(0.3, 3.0), "tc": flam(rng, 1)[0],
                "scalar_shape": rng.random() < 0.3}
@@ -815,7 +841,8 @@ def _outputs(inp, X, Y, Z, poly, tscale):
     hyp = np.asarray(PX.coords("hyperboloid"), float)
     o["coords_hyperboloid"] = hyp * np.sign(hyp[..., :1])
     o["coords_projective~"] = np.asarray(PX.coords("projective"), float)
-    o["distance"] = np.asarray(PX.distance(PY), float)
+    if not inp.get("y_ideal"):
+        o["distance"] = np.asarray(PX.distance(PY), float)
     seg = H.Segment(PX, PY)
     ib = np.asarray(seg.ideal_endpoint_coords("klein"), float)
     o["segment_ideal_unordered"] = np.sort(ib, axis=-2) if False else ib
